@@ -581,8 +581,11 @@ spifconf_shell_expand(spif_charptr_t s)
                         break;
                   }
               } else {
-                  newbuff[j++] = *(pbuff++);
+                  /* Inside single quotes both characters are kept -- as long as there is room for both. */
                   newbuff[j] = *pbuff;
+                  if (j + 1 < max) {
+                      newbuff[++j] = *(++pbuff);
+                  }
               }
               break;
           case '%':
